@@ -255,12 +255,23 @@ func (c *exprCtx) callExpr(x *ssa.Call) string {
 	for _, a := range cc.Args {
 		args = append(args, c.expr(a))
 	}
+	// a trivial getter of a module type is the field it returns: x.F() and x.f render alike
+	if sc := cc.StaticCallee(); sc != nil && len(cc.Args) == 1 && c.w != nil && c.w.inModule(sc) {
+		if path := getterPath(sc); path != nil {
+			base := strings.TrimPrefix(strings.TrimPrefix(args[0], "&"), "*")
+			return base + "." + strings.Join(path, ".")
+		}
+	}
 	name := ""
 	switch {
 	case cc.IsInvoke():
 		name = c.expr(cc.Value) + "." + cc.Method.Name()
 	case cc.StaticCallee() != nil:
 		name = funcName(cc.StaticCallee())
+		// the receiver of a module method renders alike for pointer and value receivers
+		if sc := cc.StaticCallee(); sc.Signature.Recv() != nil && len(args) > 0 && c.w != nil && c.w.inModule(sc) {
+			args[0] = strings.TrimPrefix(strings.TrimPrefix(args[0], "*"), "&")
+		}
 	default:
 		name = c.expr(cc.Value)
 	}
@@ -669,4 +680,89 @@ func blockGuards(w *World, b *ssa.BasicBlock) []string {
 		out = append(out, pol+ex.expr(iff.Cond))
 	}
 	return out
+}
+
+var getterMemo = map[*ssa.Function][]string{}
+var getterBusy = map[*ssa.Function]bool{}
+
+// getterPath: f is a method with no parameters besides its receiver whose every return is the same field path
+// of the receiver (a zero constant returned under a nil guard of the receiver aside); returns that path.
+func getterPath(f *ssa.Function) []string {
+	if p, ok := getterMemo[f]; ok {
+		return p
+	}
+	if getterBusy[f] {
+		return nil
+	}
+	getterBusy[f] = true
+	defer delete(getterBusy, f)
+	var res []string
+	defer func() { getterMemo[f] = res }()
+	if f.Signature.Recv() == nil || len(f.Params) != 1 || f.Signature.Results().Len() != 1 || len(f.Blocks) == 0 || len(f.Blocks) > 4 {
+		return nil
+	}
+	recv := f.Params[0]
+	var pathOf func(v ssa.Value, depth int) []string
+	pathOf = func(v ssa.Value, depth int) []string {
+		if depth > 6 {
+			return nil
+		}
+		switch x := v.(type) {
+		case *ssa.Parameter:
+			if x == recv {
+				return []string{}
+			}
+		case *ssa.UnOp:
+			if x.Op == token.MUL {
+				return pathOf(x.X, depth+1)
+			}
+		case *ssa.FieldAddr:
+			if base := pathOf(x.X, depth+1); base != nil {
+				_, name, _ := fieldAddrOf(x)
+				return append(append([]string{}, base...), name)
+			}
+		case *ssa.Field:
+			if base := pathOf(x.X, depth+1); base != nil {
+				_, name, _ := fieldAddrOf(x)
+				return append(append([]string{}, base...), name)
+			}
+		case *ssa.Call:
+			sc := x.Common().StaticCallee()
+			if sc != nil && len(x.Common().Args) == 1 {
+				if sub := getterPath(sc); sub != nil {
+					if base := pathOf(x.Common().Args[0], depth+1); base != nil {
+						return append(append([]string{}, base...), sub...)
+					}
+				}
+			}
+		case *ssa.ChangeType:
+			return pathOf(x.X, depth+1)
+		}
+		return nil
+	}
+	var path []string
+	n := 0
+	for _, rt := range returnsOf(f) {
+		if len(rt.Results) != 1 {
+			return nil
+		}
+		v := rt.Results[0]
+		if k, ok := v.(*ssa.Const); ok && (k.Value == nil || k.Value.ExactString() == "0") {
+			continue
+		}
+		p := pathOf(v, 0)
+		if len(p) == 0 {
+			return nil
+		}
+		if n > 0 && strings.Join(p, ".") != strings.Join(path, ".") {
+			return nil
+		}
+		path = p
+		n++
+	}
+	if n == 0 {
+		return nil
+	}
+	res = path
+	return res
 }
